@@ -26,8 +26,8 @@ WITNESSES = ["file ends exactly on a piece boundary", "piece spans two files", "
 
 def BOUNDS(tier):
     q = tier == "quick"
-    return {"versions": "v1, v2, hybrid", "shapes": "single, flat2, dir2 (two files in one directory), nested3" + ("" if q else ", order2"),
-            "sizes": "each in [0, 2P] (single: [1, 3P]), P = 16 KiB", "layouts": sorted(rw.LAYOUTS),
+    return {"versions": "v1, v2, hybrid", "shapes": "single, flat2, samedir2 (two files in one directory), samename2 (same base name in two directories), nested3",
+            "sizes": "each in [0, 2P] (single: [1, 3P]), P = 16 KiB", "layouts": sorted(rw.LAYOUTS) + ["named-dir = the copy sits in a directory named like the file"],
             "decoys": "none / before / after the real file (same name and size, different bytes)",
             "outside": "partial decoys that share whole pieces with the real file (see KF-C13-partial-decoy), piece-aligned v1 "
                        "metafiles with padding entries, more files, batches of more than two metafiles"}
@@ -48,6 +48,12 @@ def jobs(tier):
                         continue
                     out.append(("v%d.%s.%s.decoy-%s" % (version, shape, layout, decoy), "job",
                                 dict(version=version, shape=shape, P=16384, K=K, layout=layout, decoy=decoy)))
+    for version in (1, 2, 3):
+        for layout in ("mirror", "two"):
+            out.append(("v%d.samename2.%s.decoy-none" % (version, layout), "job",
+                        dict(version=version, shape="samename2", P=16384, K=2, layout=layout, decoy="none")))
+        out.append(("v%d.flat2.named-dir.decoy-none" % version, "job",
+                    dict(version=version, shape="flat2", P=16384, K=2, layout="named-dir", decoy="none")))
     out.append(("v1.flat2.flat.cli", "job", dict(version=1, shape="flat2", P=16384, K=2, layout="flat", decoy="none", via="cli")))
     out.append(("v1.batch2", "job_batch", dict()))
     return out
